@@ -2,6 +2,7 @@
 # SPDX-License-Identifier: BSD-4-Clause
 from __future__ import annotations
 
+import threading
 import weakref
 from collections import defaultdict
 from collections.abc import Iterable, Mapping
@@ -30,6 +31,9 @@ _model_classes: list[type[Model]] = []
 
 def model_classes() -> list[type[Model]]:
     return _model_classes
+
+
+_OPTIMIZED_LOCK = threading.RLock()
 
 
 @nodedataclass
@@ -758,15 +762,22 @@ class Grammar(Model):
         if isinstance(self._optimized, Grammar):
             return self._optimized
 
-        optrules: tuple[Rule, ...] = tuple(r.optimized() for r in self.rules)
-        new = copy(self)
-        new.rules = optrules
-        new.initialize()
+        # NOTE: threads parsing with a fresh model all get here at once;
+        #   copying the grammar while another thread is still filling in
+        #   its lazily computed attributes fails
+        with _OPTIMIZED_LOCK:
+            if isinstance(self._optimized, Grammar):
+                return self._optimized
 
-        self._optimized = new  # NOTE cache optimized grammar
-        new._optimized = new  # NOTE circular reference as cached
+            optrules: tuple[Rule, ...] = tuple(r.optimized() for r in self.rules)
+            new = copy(self)
+            new.rules = optrules
+            new.initialize()
 
-        return new
+            self._optimized = new  # NOTE cache optimized grammar
+            new._optimized = new  # NOTE circular reference as cached
+
+            return new
 
     @classmethod
     def __from_json__(cls: type[Self], data: Mapping[str, Any]) -> Grammar:
